@@ -18,6 +18,8 @@ def plan(tier, seed):
         (corner("awk", prefix=A.GL), A.timing(), 3),
         (corner("mixed", prefix=A.GLD), A.timing(dmm=True), 2),
         (corner("real", prefix=A.GR, name="real-samebasis"), A.timing(l="r", basis_l="ground-rydberg"), 3),
+        (corner("awk", prefix=A.DG, name="awk-dmm-first"), A.timing(l="r", basis_l="ground-rydberg", dmm=True), 2),
+        (corner("mixed", prefix=A.LL, name="mixed-two-locals"), A.two_locals(), 3),
     ]
     if tier == "thorough":
         worlds = [(w, a, d + 1) for w, a, d in worlds]
